@@ -258,10 +258,17 @@ func runC04(k *kernel.K) {
 		}
 	}
 
-	// Phase 2: the closer closes.
+	// Phase 2: the closer closes (orderly), or aborts its connection (reset).
 	closerSent := closer.sent
 	closer.hold = true
-	closer.close()
+	abort := w.Chance(1, 4)
+	if abort {
+		k.FaultFired("tunnel_end_resets_connection")
+		closer.closed = true
+		closer.c.Abort()
+	} else {
+		closer.close()
+	}
 	k.Drain()
 	if k.Inconclusive != "" {
 		n.Shutdown()
@@ -272,7 +279,7 @@ func runC04(k *kernel.K) {
 	if ready || closer == cl {
 		// Everything the closer sent before closing must have reached the survivor, then EOF.
 		// (Skipped for directions already reported in phase 1.)
-		if len(survivor.recv) != closerSent && !k.Failed() {
+		if len(survivor.recv) != closerSent && !k.Failed() && !abort {
 			k.Fail("C04.all_delivered", map[string]string{"dir": closer.name + "_before_close", "early_data": earlyClass, "personality": personality}, "%s wrote %d bytes and closed; %s received %d at network quiescence", closer.name, closerSent, survivor.name, len(survivor.recv))
 		}
 		if !survivor.sawEOF && !survivor.sawRST {
